@@ -176,6 +176,9 @@ def execute(sc):
                         ok = True
                 if v.kind == 'LOOP' and not ok and r[0] == 'OS' and (r[1] in v.oserr or (r[1] == 'ENOTDIR' and getattr(v, 'enotdir', False))):
                     ok = True
+                if v.kind == 'LOOP' and not ok and r[0] == 'GE' and r[1] == 'UnsupportedHash' and \
+                        (v.unsupported or 'unsupported-hash' in v.offending.values()):
+                    ok = True       # (an entry with a hash this installation cannot compute, met before the loop)
                 if not ok:
                     violations.append(viol('keepgoing.structural-not-raised',
                                            '%s: model says %s (%r), gemato %s; handler calls %r' % (what, v.kind, v.chain, describe(r), calls),
